@@ -14,11 +14,21 @@ pub mod c10;
 pub mod c11;
 pub mod c12;
 pub mod c13;
+#[cfg(feature = "sched")]
+pub mod c14;
+#[cfg(feature = "sched")]
+pub mod sched_common;
 pub mod c17;
 pub mod c18;
 pub mod c19;
 pub mod c20;
 
 pub fn all() -> Vec<Box<dyn Property>> {
-    vec![Box::new(c01::C01), Box::new(c02::C02), Box::new(c03::C03), Box::new(c04::C04), Box::new(c05::C05), Box::new(c06::C06), Box::new(c07::C07), Box::new(c08::C08), Box::new(c09::C09), Box::new(c10::C10), Box::new(c11::C11), Box::new(c12::C12), Box::new(c13::C13), Box::new(c17::C17), Box::new(c18::C18), Box::new(c19::C19), Box::new(c20::C20)]
+    #[allow(unused_mut)]
+    let mut v: Vec<Box<dyn Property>> = vec![Box::new(c01::C01), Box::new(c02::C02), Box::new(c03::C03), Box::new(c04::C04), Box::new(c05::C05), Box::new(c06::C06), Box::new(c07::C07), Box::new(c08::C08), Box::new(c09::C09), Box::new(c10::C10), Box::new(c11::C11), Box::new(c12::C12), Box::new(c13::C13), Box::new(c17::C17), Box::new(c18::C18), Box::new(c19::C19), Box::new(c20::C20)];
+    #[cfg(feature = "sched")]
+    {
+        v.push(Box::new(c14::C14));
+    }
+    v
 }
